@@ -431,6 +431,24 @@ def registration_check(prop):
                 fw = attrs.get('frequency_weight')
                 want_fw = 'Some(%sf64)' % fw if fw else 'None'
                 checks.append(('frequency_weight_as_written', a[6] == want_fw, 'constructor frequency_weight argument %r vs attribute %r' % (a[6], fw), ['C08']))
+            # C16: the stores are created EMPTY by infallible constructors (`..::new()` only): an initializer that depends on an
+            # attribute value (e.g. with_capacity(limit)) can panic / abort for large values before the first lookup
+            if prop == 'C16':
+                try:
+                    ff = W.find_fixture_fn(exp, name)
+                    fbody = exp[ff['body_open']:ff['body_close'] + 1]
+                except ExtractError:
+                    fbody = ''
+                inits = [re.sub(r'\s+', '', m.group(2)) for m in re.finditer(r'\bstatic\s+(GLOBAL_OR_THREAD_\w+|__(?:CACHE|ORDER|STATS)_\w+)\s*:[^=;]*=\s*([^;]*);', fbody)]
+                inits += [re.sub(r'\s+', '', m.group(1)) for m in re.finditer(r'fn\s+__rust_std_internal_init_fn\s*\(\s*\)\s*->[^{]*\{([^{}]*)\}', fbody)]
+                bad = []
+                for init in inits:
+                    calls = re.findall(r'([\w:]+)\(', init)
+                    rest = re.sub(r'[\w:]+::new\(|\)|\|\|', '', init)
+                    if any(not c.endswith('::new') for c in calls) or rest:
+                        bad.append(init[:120])
+                checks.append(('stores_created_empty_by_infallible_constructors', bool(inits) and not bad,
+                               'static initializers %s' % (bad or 'not found'), ['C16']))
             if info['scope'] != 'thread':
                 expected = attrs.get('name') or name
                 regs = info['registrations']
@@ -505,7 +523,8 @@ def run_unit(unit_name, tier, seed, workdir=None):
         added = False
         # a pulled-in helper whose body cannot serve as its own specification (it calls exec-only functions): give it up
         for t in pc['tool_errors']:
-            if 'with mode exec' in t.get('message', '') or 'with mode spec' in t.get('message', ''):
+            if t.get('kind') in ('rustc', 'tool'):
+                # any compile-level error INSIDE a pulled-in helper (exec-only calls in its body-as-spec, unknown types, ...)
                 for ln in t.get('lines') or [t.get('line')]:
                     owner = verify._owner(g['linemap'], ln) if ln else None
                     if owner and owner.startswith('helper::') and owner[len('helper::'):] in helpers:
